@@ -160,7 +160,7 @@ func TestRandomPrograms(t *testing.T) {
 		runCase(t, c)
 		return
 	}
-	pbt.Check(t, 1000, 24000, func(rt *rapid.T) {
+	pbt.Check(t, 700, 24000, func(rt *rapid.T) {
 		ops := genProgram(rt)
 		if pbt.WantSample(t) {
 			pbt.Sample(t, Case{Driver: "all four", Ops: ops})
